@@ -26,11 +26,11 @@ func init() {
 		{Module: "Buffer", Name: "reRequest", File: bufDP, Func: "Processor.process", Sel: "if:2", Mode: "u32",
 			Vars:   map[string]string{"event.Lamport()": "lamport", "highestLamport": "highest", "maxLamportDiff": "maxDiff", "complete": "complete"},
 			Params: []string{"lamport", "highest", "maxDiff"}, BParams: []string{"complete"}, Result: "Bool"},
-		{Module: "Buffer", Name: "orderedLoop", File: bufDP, Func: "Processor.Enqueue", Sel: "for:2", Mode: "nat",
+		{Module: "Buffer", Name: "orderedLoop", File: bufDP, Func: "Processor.Enqueue", Sel: "for:1", Mode: "nat",
 			Vars:   map[string]string{"processed": "processed", "len(orderedResults)": "n", "orderedResults[i] != nil": "present"},
 			Params: []string{"processed", "n"}, BParams: []string{"present"}, Result: "Bool",
 			Doc: "inner loop of the ordered reassembly (i = processed throughout)"},
-		{Module: "Buffer", Name: "batchLoop", File: bufDP, Func: "Processor.Enqueue", Sel: "for:1", Mode: "nat",
+		{Module: "Buffer", Name: "batchLoop", File: bufDP, Func: "Processor.Enqueue", Sel: "for:0", Mode: "nat",
 			Vars:   map[string]string{"processed": "processed", "eventsLen": "n"},
 			Params: []string{"processed", "n"}, Result: "Bool"},
 		// ---- utils/datasemaphore as used by the processor (C15) -----------------------------
@@ -47,5 +47,11 @@ func init() {
 		{Module: "Buffer", Name: "semUnderflow", File: bufSem, Func: "DataSemaphore.Release", Sel: "if:0", Mode: "nat",
 			Vars:   map[string]string{"s.processing.Num": "heldNum", "weight.Num": "relNum", "s.processing.Size": "heldSize", "weight.Size": "relSize"},
 			Params: []string{"heldNum", "relNum", "heldSize", "relSize"}, Result: "Bool"},
+		{Module: "Buffer", Name: "semSubNum", File: bufSem, Func: "DataSemaphore.Release", Sel: "assign:s.processing.Num", Mode: "nat",
+			Vars: map[string]string{"s.processing.Num": "held", "weight.Num": "rel"}, Params: []string{"held", "rel"}, Result: "Nat",
+			Doc: "guarded by semUnderflow: held ≥ rel, the truncated subtraction is exact"},
+		{Module: "Buffer", Name: "semSubSize", File: bufSem, Func: "DataSemaphore.Release", Sel: "assign:s.processing.Size", Mode: "nat",
+			Vars: map[string]string{"s.processing.Size": "held", "weight.Size": "rel"}, Params: []string{"held", "rel"}, Result: "Nat",
+			Doc: "guarded by semUnderflow"},
 	}...)
 }
